@@ -94,7 +94,7 @@ def generate(run_seed: int, tier: str) -> dict:
         if rng.random() < 0.7:
             ids = sorted(set(ids) | set(range(min(5, n))))
             rng.shuffle(ids)
-        datas[f"D{i}"] = {"ids": ids, "container": core.weighted(rng, [("pandas", 6), ("dict", 2), ("arrow", 1)]),
+        datas[f"D{i}"] = {"ids": ids, "container": core.weighted(rng, [("pandas", 6), ("recarray", 1), ("pandas_sub", 1), ("arrow", 1)]),
                           "index": core.weighted(rng, [("rid", 3), ("range", 2), ("str", 1)])}
         if "a|b" in u["cols"] and rng.random() < 0.5:
             datas[f"D{i}"]["without"] = ["a_b"]  # this caller's frame has no column named like the shared alias
@@ -692,6 +692,8 @@ def data_digest(obj: Any) -> str:
             if isinstance(obj[c].dtype, pd.CategoricalDtype):
                 parts.append(repr(list(obj[c].cat.categories)))
         return _md5("|".join(parts).encode())
+    if isinstance(obj, np.recarray):
+        return _md5((repr(obj.dtype) + repr(obj.tolist())).encode())
     if isinstance(obj, dict):
         parts = [repr(list(obj))]
         for k, v in obj.items():
